@@ -133,11 +133,14 @@ Theorem C15_one_grid_per_level : forall marge sf dmin dmax H W n wr lvls,
   length (run_grids ms_invalid_bits marge sf dmin dmax H W n wr lvls) = S (length lvls).
 Proof. exact (run_grids_length ms_invalid_bits). Qed.
 
-(* zoom order 0: fine index o reads a coarse index of the map, at most one pixel away from
-   its geometric parent o / sf *)
-Theorem C15_zoom_parent : forall sf n o, 1 <= sf -> 1 <= n -> 0 <= o < sf * n ->
-  0 <= zoom_idx sf n o < n /\ near_parent sf o (zoom_idx sf n o).
-Proof. intros sf n o H1 H2 H3. split; [exact (zoom_idx_range sf n o H1 H2 H3) | exact (zoom_idx_near sf n o H1 H2 H3)]. Qed.
+(* zoom order 0.  The index maps of the zoom calls are data of the model (observed on the run);
+   the interval theorems hold for EVERY pair of maps satisfying [zoom_contract]: fine index o
+   reads a coarse index of the map, at most one pixel away from its geometric parent o / sf.
+   The exact-arithmetic nearest-sample formula floor(o (n-1) / (sf n - 1) + 1/2) satisfies it
+   for every size (scipy follows the formula except on exact ties, where it may take the other
+   neighbour: still within the contract, checked on every run) *)
+Theorem C15_zoom_parent : forall sf n, 1 <= sf -> 1 <= n -> zoom_contract sf n (zoom_idx sf n).
+Proof. exact zoom_idx_contract. Qed.
 
 (* the chunked loops of disparity_range: any chunk size >= 1 gives the same ranges *)
 Theorem C15_block_independent : forall ws marge D V umin umax B B' r c,
@@ -161,13 +164,16 @@ Qed.
 (* for EVERY user interval (no guard): the grids handed to the finer level are the property's
    intervals, except that the fallback interval of invalid / border pixels is
    sf * int(user interval of the coarser level) *)
-Theorem C15_finer_interval_as_computed : forall ws marge sf D V umin umax,
+Theorem C15_finer_interval_as_computed : forall ws marge sf D V umin umax zrow zcol,
   ws = 2 * offset ws + 1 -> 0 <= offset ws -> ws <= nr D -> ws <= nc D ->
-  1 <= sf -> 1 <= nr D -> 1 <= nc D ->
+  zoom_contract sf (nr D) zrow -> zoom_contract sf (nc D) zcol ->
   finer_spec ws marge sf (nr D) (nc D) (px D) (px V)
              (inject_Z (qtrunc umin) * inject_Z sf)%Q (inject_Z (qtrunc umax) * inject_Z sf)%Q
-             (sf * nr D) (sf * nc D) (px (next_grids ms_invalid_bits ws marge sf D V umin umax)).
-Proof. exact next_grids_as_computed. Qed.
+             (sf * nr D) (sf * nc D) (px (next_grids ms_invalid_bits ws marge sf D V umin umax zrow zcol)).
+Proof.
+  intros ws marge sf D V umin umax zrow zcol H1 H2 H3 H4.
+  exact (next_grids_as_computed ws marge sf D V umin umax H1 H2 H3 H4 zrow zcol).
+Qed.
 
 (* THE FULL PROPERTY for a finer level: execution i + 1 (scale s) of a run over n scales
    searches, at every pixel, sf * [min - marge, max + marge] of the valid disparities of the
@@ -232,7 +238,8 @@ Definition ex_pre : list step := [mkStep 0 (Some MC); mkStep 1 (Some Dsp); mkSte
 Definition ex_ms : step := mkStep 3 (Some Msc).
 Definition ex_post : list step := [mkStep 4 (Some Ref); mkStep 5 (Some Val)].
 Definition ex_level : level :=
-  mkLevel 3 (mkArr 4 5 (fun r c => Some (inject_Z (r - c))), mkArr 4 5 (fun r c => if (r =? 0) && (c =? 0) then 1 else 0)) None.
+  mkLevel 3 (mkArr 4 5 (fun r c => Some (inject_Z (r - c))), mkArr 4 5 (fun r c => if (r =? 0) && (c =? 0) then 1 else 0)) None
+          (zoom_idx 2 4, zoom_idx 2 5).
 Example C15_example_hyps :
   clean machine0 /\ path_ok Begin (ex_pre ++ ex_ms :: ex_post) = Some DispMap /\
   has_kind Msc ex_pre = false /\ is_kind Msc ex_ms = true /\ NoDup (map s_id (ex_pre ++ ex_ms :: ex_post)) /\
@@ -241,14 +248,19 @@ Example C15_example_hyps :
   exec_scales 3 false (spec_trace ex_pre ex_ms ex_post 3 true) = [2; 1] /\
   map snd (image_sizes 3 13 17 2 (scale_trace false 0 [])) = [] /\
   map (fun k => level_size k 13 2) [0; 1; 2]%nat = [13; 7; 4] /\
-  level_ok (lv_ws ex_level) (fst (lv_left ex_level)) /\
+  level_ok 2 (lv_ws ex_level) (fst (lv_left ex_level)) (lv_zoom ex_level) /\
   (2 ^ Z.of_nat 2 | -8) /\ (2 ^ Z.of_nat 2 | 4) /\
-  px (next_grids ms_invalid_bits 3 1 2 (fst (lv_left ex_level)) (snd (lv_left ex_level)) (-2 # 1) (1 # 1)) 4 4
+  px (next_grids ms_invalid_bits 3 1 2 (fst (lv_left ex_level)) (snd (lv_left ex_level)) (-2 # 1) (1 # 1)
+                 (zoom_idx 2 4) (zoom_idx 2 5)) 4 4
   = (Some (-6 # 1)%Q, Some (6 # 1)%Q).
 Proof.
-  repeat split; try reflexivity; try (vm_compute; discriminate).
-  - repeat constructor; cbn; intuition discriminate.
-  - exists (-2). reflexivity.
+  split; [split; reflexivity|]. split; [reflexivity|]. split; [reflexivity|]. split; [reflexivity|].
+  split; [repeat constructor; cbn; intuition discriminate|].
+  split; [reflexivity|]. split; [reflexivity|]. split; [reflexivity|]. split; [reflexivity|]. split; [reflexivity|].
+  split.
+  { split; [reflexivity|]. split; [vm_compute; discriminate|]. split; [vm_compute; discriminate|].
+    split; [vm_compute; discriminate|]. split; apply zoom_idx_contract; vm_compute; discriminate. }
+  split; [exists (-2); reflexivity|]. split; [exists 1; reflexivity|]. reflexivity.
 Qed.
 
 Print Assumptions C15_constants_match.
